@@ -53,6 +53,7 @@ import LndModel.C02.Spec
 import LndModel.C02.Total
 import LndModel.C02.Lemmas
 import LndModel.C02.FwdDriver
+import LndModel.C02.CodecDriver
 import LndModel.C02.TxAtomic
 
 open LndModel LndModel.Lines LndModel.C01 LndModel.C02
@@ -1362,6 +1363,10 @@ def main (args : List String) : IO Unit := do
   -- stream `fwdpkg` (package channeldb): the forwarding-package store, see FwdDriver.lean
   if args.getLast? == some "fwdpkg" then
     LndModel.C02.Fwd.Driver.main
+    return
+  -- stream `codec` (package channeldb): the persisted structures at the byte level, see CodecDriver.lean
+  if args.getLast? == some "codec" then
+    LndModel.C02.Codec.Driver.main
     return
   let s ← LndModel.Lines.foldStdin step {}
   let s ← flush s
